@@ -697,7 +697,8 @@ func (t *objectType) IsAssignable(o px.Type, g px.Guard) bool {
 		return true
 	}
 	if ot.parent != nil {
-		return t.IsAssignable(ot.parent, g)
+		// the parent can be given through a type alias
+		return t.IsAssignable(ot.resolvedParent(), g)
 	}
 	return false
 }
